@@ -174,6 +174,38 @@ func buildUserPacket(kind string, r *rng) *astits.Packet {
 	case "negstuff": // a stuffing length below zero (what the parser reports for an adaptation_field_length shorter than its flagged content)
 		return &astits.Packet{Header: astits.PacketHeader{PID: 0x1ffe, HasPayload: true, HasAdaptationField: true, ContinuityCounter: uint8(r.intn(16))},
 			AdaptationField: &astits.PacketAdaptationField{HasPCR: true, PCR: &astits.ClockReference{Base: cr33(r)}, StuffingLength: -r.pick(1, 6, 7, 8, 100)}, Payload: r.bytes(r.pick(1, 100, 176, 177))}
+	case "parsedext", "parsedextonly":
+		// a packet as the Demuxer returns it for an adaptation field extension with reserved bytes behind its known parts (ISO 13818-1
+		// table 2-6 allows them), handed to WritePacket unchanged: with payload, and adaptation-only
+		k := r.pick(1, 2, 5)
+		ext := []byte{byte(1 + 2 + k), 0x80 | 0x1f, byte(0x80 | r.intn(128)), byte(r.intn(256))} // length, ltw flag + reserved bits, ltw
+		ext = append(ext, r.bytes(k)...)
+		af := append([]byte{0x01}, ext...) // flags: extension only
+		b := make([]byte, 188)
+		b[0], b[1], b[2] = 0x47, 0x1f, 0xfe
+		if kind == "parsedext" {
+			n := 20 + r.intn(100) // payload bytes
+			afl := 183 - n
+			b[3] = 0x30 | byte(r.intn(16))
+			b[4] = byte(afl)
+			copy(b[5:], af)
+			for j := 5 + len(af); j < 5+afl; j++ {
+				b[j] = 0xff
+			}
+			copy(b[5+afl:], r.bytes(n))
+		} else {
+			b[3] = 0x20 | byte(r.intn(16))
+			b[4] = 183
+			copy(b[5:], af)
+			for j := 5 + len(af); j < 188; j++ {
+				b[j] = 0xff
+			}
+		}
+		p, err := astits.NewDemuxer(context.Background(), bytes.NewReader(b), astits.DemuxerOptPacketSize(188)).NextPacket()
+		if err != nil {
+			fatal("parsedext: %v", err)
+		}
+		return p
 	case "nilaf": // the header announces an adaptation field, none is given
 		return &astits.Packet{Header: astits.PacketHeader{PID: 0x1ffe, HasPayload: true, HasAdaptationField: true, ContinuityCounter: uint8(r.intn(16))}, Payload: r.bytes(100)}
 	case "hugestuff":
